@@ -116,9 +116,7 @@ func emit(h *hx.H, gen func(r *rng.R) docCase) {
 			lines = append(lines, sexp.Int(len([]rune(l))))
 		}
 		intent := sexp.Sym("any")
-		if c.Intent == "valid" {
-			intent = sexp.Sym("valid")
-		} else if c.Intent != "any" && c.Intent != "" {
+		if c.Intent != "any" && c.Intent != "" {
 			intent = sexp.T("violates", sexp.Str(c.Intent))
 		}
 		return sexp.T("case",
